@@ -140,6 +140,7 @@ fn run() {
         let mut books: Vec<OrderBook> = vec![];
         let mut books0: Vec<OrderBook> = vec![];
         let mut alive = true;
+        let mut reconnected = false;
         let mut all_outs: Vec<Res> = vec![];
         let exchange = |spot: bool| if spot { ExchangeId::BinanceSpot } else { ExchangeId::BinanceFuturesUsd };
         for op in case.ops.iter() {
@@ -154,8 +155,17 @@ fn run() {
                     n = op[2].parse().expect("n");
                     initial.clear();
                     tr = None;
+                    reconnected = false;
+                    books.clear();
                 }
                 "venue" => {}
+                // a new connection for the same consumer: the local books persist, the transformer
+                // and the initial snapshots are those of the new connection
+                "reconnect" => {
+                    initial.clear();
+                    tr = None;
+                    reconnected = true;
+                }
                 "snap" | "snapu" => {
                     let k: usize = op[1].parse().expect("k");
                     let s: u64 = op[2].parse().expect("s");
@@ -188,7 +198,9 @@ fn run() {
                         Ok(t) => {
                             tr = Some(t);
                             // the initial snapshots are the first items of the stream
-                            books = (0..n).map(|_| OrderBook::default()).collect();
+                            if !reconnected || books.len() != n {
+                                books = (0..n).map(|_| OrderBook::default()).collect();
+                            }
                             for ev in &initial {
                                 apply(&mut books, ev);
                             }
@@ -533,13 +545,43 @@ fn gen_random_case(out: &mut Out, rng: &mut Rng, thorough: bool) {
     out.line(format!("init {} {n}", if spot { "spot" } else { "fut" }));
     let garbage = rng.chance(12);
     let extras = rng.chance(40);
+    // the venues' true histories: the same for every connection of the case
+    let venues: Vec<(Vec<Chg>, Vec<String>)> = (0..n).map(|_| gen_venue(rng, if thorough { 60 } else { 40 })).collect();
+    for (k, (v, _)) in venues.iter().enumerate() {
+        out.line(venue_line(k, v));
+    }
+    // one to three connections: after the first the consumer's local books persist and each new
+    // connection starts with a fresh snapshot (re-initialisation after a break / a reconnect)
+    let connections = *rng.pick(&[1usize, 1, 1, 2, 2, 3]);
+    for c in 0..connections {
+        if c > 0 {
+            out.line("reconnect");
+        }
+        let fail_init = rng.chance(4);
+        if !gen_connection(out, rng, spot, n, &venues, garbage, extras, fail_init) {
+            return;
+        }
+    }
+}
+
+/// one connection: snapshots, `start`, interleaved deliveries, `end`; false when `init` was made to fail
+#[allow(clippy::too_many_arguments)]
+fn gen_connection(
+    out: &mut Out,
+    rng: &mut Rng,
+    spot: bool,
+    n: usize,
+    venues: &[(Vec<Chg>, Vec<String>)],
+    garbage: bool,
+    extras: bool,
+    fail_init: bool,
+) -> bool {
     let mut deliveries: Vec<Vec<Msg>> = vec![];
     let mut snaps: Vec<String> = vec![];
-    let fail_init = rng.chance(4);
     let fail_k = rng.below(n as u64) as usize;
     for k in 0..n {
-        let (v, grid) = gen_venue(rng, if thorough { 60 } else { 40 });
-        out.line(venue_line(k, &v));
+        let (v, grid) = (&venues[k].0, &venues[k].1);
+        let (v, grid) = (v.clone(), grid.clone());
         // cut points
         let mut cuts: Vec<u64> = vec![if rng.chance(60) { 0 } else { v[0].id.saturating_sub(1) }];
         for c in &v {
@@ -597,7 +639,7 @@ fn gen_random_case(out: &mut Out, rng: &mut Rng, thorough: bool) {
     }
     out.line("start");
     if fail_init {
-        return;
+        return false;
     }
     // interleave the instruments' deliveries, keeping each instrument's order
     let mut idx = vec![0usize; n];
@@ -617,6 +659,7 @@ fn gen_random_case(out: &mut Out, rng: &mut Rng, thorough: bool) {
         idx[k] += 1;
     }
     out.line("end");
+    true
 }
 
 /// small-scope exhaustive: one instrument, snapshot at id 5, every sequence of at most `depth`
